@@ -64,19 +64,26 @@ Section VLoops.
     - apply Exists_cons_hd. exact E.
   Qed.
 
-  (* the first passing branch: everything before it failed *)
-  Lemma any_branch_true v bs : any_branch rec v bs = Ok true ->
-    exists pre c post, bs = pre ++ c :: post /\ Forall (fun b => rec b (Some v) = Ok false) pre /\ rec c (Some v) = Ok true.
+  (* the first passing branch: everything before it was excluded by the "-type" entry or failed *)
+  Lemma any_branch_true pass v bs : any_branch rec pass v bs = Ok true ->
+    exists pre c post, bs = pre ++ c :: post /\ Forall (fun b => pass b = false \/ rec b (Some v) = Ok false) pre /\
+      pass c = true /\ rec c (Some v) = Ok true.
   Proof.
     induction bs as [|b bs IH]; cbn [any_branch]; intros H; [discriminate|].
-    destruct (rec b (Some v)) as [[|]| |] eqn:E; cbn [bind] in H; try discriminate.
-    - exists [], b, bs. repeat split; [constructor|exact E].
-    - destruct (IH H) as (pre & c & post & -> & Hp & Hc). exists (b :: pre), c, post. repeat split; [constructor; assumption|exact Hc].
+    destruct (pass b) eqn:Ep; cbn [negb] in H.
+    - destruct (rec b (Some v)) as [[|]| |] eqn:E; cbn [bind] in H; try discriminate.
+      + exists [], b, bs. repeat split; [constructor|exact Ep|exact E].
+      + destruct (IH H) as (pre & c & post & -> & Hp & Hpc & Hc). exists (b :: pre), c, post.
+        repeat split; [constructor; [right; exact E|assumption]|exact Hpc|exact Hc].
+    - destruct (IH H) as (pre & c & post & -> & Hp & Hpc & Hc). exists (b :: pre), c, post.
+      repeat split; [constructor; [left; exact Ep|assumption]|exact Hpc|exact Hc].
   Qed.
-  Lemma any_branch_false v bs : any_branch rec v bs = Ok false -> Forall (fun b => rec b (Some v) = Ok false) bs.
+  Lemma any_branch_false pass v bs : any_branch rec pass v bs = Ok false ->
+    Forall (fun b => pass b = false \/ rec b (Some v) = Ok false) bs.
   Proof.
     induction bs as [|b bs IH]; cbn [any_branch]; intros H; [constructor|].
-    destruct (rec b (Some v)) as [[|]| |] eqn:E; cbn [bind] in H; try discriminate. constructor; auto.
+    destruct (pass b) eqn:Ep; cbn [negb] in H; [|constructor; [left; exact Ep|auto]].
+    destruct (rec b (Some v)) as [[|]| |] eqn:E; cbn [bind] in H; try discriminate. constructor; [right; exact E|auto].
   Qed.
 
   Lemma hinted_str nm v bs :
@@ -109,16 +116,17 @@ Proof.
     intros p [Hk Hv]. split; [exact Hk|apply IH; exact Hv].
   - change (conforms (S (S n)) o e (SUnion bs) v) with
       (match v with
-       | PTuple l => if disable_tuple o then Exists (fun b => conforms (S n) o e b v) bs
+       | PTuple l => if disable_tuple o then Exists (fun b => hint_pass e v b = true /\ conforms (S n) o e b v) bs
                      else exists name x b, l = [PStr name; x] /\ first_named name bs = Some b /\ conforms (S n) o e b x
-       | _ => Exists (fun b => conforms (S n) o e b v) bs end).
+       | _ => Exists (fun b => hint_pass e v b = true /\ conforms (S n) o e b v) bs end).
     change (conforms (S n) o e (SUnion bs) v) with
       (match v with
-       | PTuple l => if disable_tuple o then Exists (fun b => conforms n o e b v) bs
+       | PTuple l => if disable_tuple o then Exists (fun b => hint_pass e v b = true /\ conforms n o e b v) bs
                      else exists name x b, l = [PStr name; x] /\ first_named name bs = Some b /\ conforms n o e b x
-       | _ => Exists (fun b => conforms n o e b v) bs end) in H.
-    assert (HE : Exists (fun b => conforms n o e b v) bs -> Exists (fun b => conforms (S n) o e b v) bs).
-    { intros HE. eapply Exists_impl; [|exact HE]. intros; apply IH; assumption. }
+       | _ => Exists (fun b => hint_pass e v b = true /\ conforms n o e b v) bs end) in H.
+    assert (HE : Exists (fun b => hint_pass e v b = true /\ conforms n o e b v) bs ->
+                 Exists (fun b => hint_pass e v b = true /\ conforms (S n) o e b v) bs).
+    { intros HE. eapply Exists_impl; [|exact HE]. intros b0 [H1 H2]. split; [exact H1|apply IH; exact H2]. }
     destruct v; try (apply HE; exact H).
     destruct (disable_tuple o); [apply HE; exact H|].
     destruct H as (name & x & b & H1 & H2 & H3). exists name, x, b. repeat split; try assumption. apply IH; exact H3.
@@ -164,12 +172,13 @@ Proof.
     + apply IHkv; [|exact H2]. intros q Hq. apply Ek. right. exact Hq.
   - change (conforms (S f) o e (SUnion bs) v) with
       (match v with
-       | PTuple l => if disable_tuple o then Exists (fun b => conforms f o e b v) bs
+       | PTuple l => if disable_tuple o then Exists (fun b => hint_pass e v b = true /\ conforms f o e b v) bs
                      else exists name x b, l = [PStr name; x] /\ first_named name bs = Some b /\ conforms f o e b x
-       | _ => Exists (fun b => conforms f o e b v) bs end).
-    assert (HA : any_branch (validate f o e) v bs = Ok true -> Exists (fun b => conforms f o e b v) bs).
-    { intros HA. apply any_branch_true in HA. destruct HA as (pre & c & post & -> & _ & Hc).
-      apply Exists_app. right. apply Exists_cons_hd. exact (IH _ _ _ _ Hc). }
+       | _ => Exists (fun b => hint_pass e v b = true /\ conforms f o e b v) bs end).
+    assert (HA : any_branch (validate f o e) (hint_pass e v) v bs = Ok true ->
+                 Exists (fun b => hint_pass e v b = true /\ conforms f o e b v) bs).
+    { intros HA. apply any_branch_true in HA. destruct HA as (pre & c & post & -> & _ & Hpc & Hc).
+      apply Exists_app. right. apply Exists_cons_hd. split; [exact Hpc|exact (IH _ _ _ _ Hc)]. }
     destruct v; try (apply HA; exact H).
     destruct (disable_tuple o); [apply HA; exact H|].
     destruct l as [|name [|x [|? ?]]]; try discriminate.
@@ -217,9 +226,11 @@ Proof.
     rewrite Hk in H. destruct b; [reflexivity|]. apply all_items_false in H. apply Exists_exists in H.
     destruct H as (x & Hx & Hf). apply in_map_iff in Hx. destruct Hx as (p & <- & Hp).
     rewrite Forall_forall in Hl. destruct (Hl p Hp) as [_ Hv]. exact (IH _ _ _ _ Hv _ _ Hf).
-  - assert (HA : Exists (fun b => conforms n o e b v) bs -> any_branch (validate f o e) v bs = Ok b -> b = true).
+  - assert (HA : Exists (fun b => hint_pass e v b = true /\ conforms n o e b v) bs ->
+                 any_branch (validate f o e) (hint_pass e v) v bs = Ok b -> b = true).
     { intros HE HA. destruct b; [reflexivity|]. apply any_branch_false in HA. apply Exists_exists in HE.
-      destruct HE as (c & Hin & Hcc). rewrite Forall_forall in HA. exact (IH _ _ _ _ Hcc _ _ (HA c Hin)). }
+      destruct HE as (c & Hin & Hpc & Hcc). rewrite Forall_forall in HA.
+      destruct (HA c Hin) as [Hf|Hf]; [congruence|exact (IH _ _ _ _ Hcc _ _ Hf)]. }
     destruct v; try (apply HA; [exact Hc|exact H]).
     destruct (disable_tuple o); [apply HA; [exact Hc|exact H]|].
     destruct Hc as (name & x & c & -> & Hf & Hcc). rewrite hinted_str, Hf in H. exact (IH _ _ _ _ Hcc _ _ H).
@@ -262,9 +273,10 @@ Section RLoopsProofs.
     induction fs as [|fd fs IH]; cbn [rall_fields all_fields]; [reflexivity|]. rewrite Hrec.
     destruct (rec (ftype fd) _) as [[|]| |]; cbn [bind vres_of]; [exact IH|reflexivity..].
   Qed.
-  Lemma rany_branch_eq v bs : rany_branch rrec v bs = vres_of (any_branch rec v bs).
+  Lemma rany_branch_eq pass v bs : rany_branch rrec pass v bs = vres_of (any_branch rec pass v bs).
   Proof.
-    induction bs as [|b bs IH]; cbn [rany_branch any_branch]; [reflexivity|]. rewrite Hrec.
+    induction bs as [|b bs IH]; cbn [rany_branch any_branch]; [reflexivity|].
+    destruct (pass b); cbn [negb]; [|exact IH]. rewrite Hrec.
     destruct (rec b (Some v)) as [[|]| |]; cbn [bind vres_of]; [reflexivity|exact IH|reflexivity..].
   Qed.
   Lemma rhinted_eq name v bs : rhinted rrec name v bs = vres_of (hinted rec name v bs).
@@ -342,9 +354,10 @@ Section VMono.
     revert b; induction fs as [|fd fs IH]; intros b H; cbn [all_fields] in *; [exact H|].
     destruct (r1 (ftype fd) _) as [[|]| |] eqn:E; cbn [bind] in H; try discriminate; rewrite (Hm _ _ _ E); cbn [bind]; auto.
   Qed.
-  Lemma any_branch_mono v bs b : any_branch r1 v bs = Ok b -> any_branch r2 v bs = Ok b.
+  Lemma any_branch_mono pass v bs b : any_branch r1 pass v bs = Ok b -> any_branch r2 pass v bs = Ok b.
   Proof.
     revert b; induction bs as [|c bs IH]; intros b H; cbn [any_branch] in *; [exact H|].
+    destruct (pass c); cbn [negb] in *; [|auto].
     destruct (r1 c (Some v)) as [[|]| |] eqn:E; cbn [bind] in H; try discriminate; rewrite (Hm _ _ _ E); cbn [bind]; auto.
   Qed.
   Lemma hinted_mono name v bs b : hinted r1 name v bs = Ok b -> hinted r2 name v bs = Ok b.
@@ -1289,22 +1302,22 @@ Proof.
     destruct (elab_map_ev _ _ _ _ Hev) as [f0 Hf0]. exists (S f0). intros [|f'] Hf; [lia|].
     destruct (Hf0 f' ltac:(lia)) as [r Hr]. exists (AMap r). cbn [elab]. rewrite Hr. reflexivity.
   - (* union *)
-    assert (Hsearch : any_branch (validate f o e) v bs = Ok true ->
-              Forall (fun c => (exists b, validate n o e c (Some v) = Ok b /\ (b = true -> hint_pass e v c = true)) /\ wdom n o e c v) bs ->
+    assert (Hsearch : any_branch (validate f o e) (hint_pass e v) v bs = Ok true ->
+              Forall (fun c => (exists b, validate n o e c (Some v) = Ok b) /\ wdom n o e c v) bs ->
               exists f0, forall f', (f0 <= f')%nat -> exists a, union_search f' o e bs v = WOk a).
     { intros Ha Hall. rewrite Forall_forall in Hall.
       (* the answers of the validator are the same for every fuel >= n *)
       assert (Hsame : forall f', (n <= f')%nat -> forall c, In c bs -> vval f' o e c v = vval n o e c v).
-      { intros f' Hf c Hc. destruct (Hall c Hc) as [(b & Hb & _) _]. unfold vval. rewrite Hb.
+      { intros f' Hf c Hc. destruct (Hall c Hc) as [(b & Hb) _]. unfold vval. rewrite Hb.
         eapply validate_fuel_mono; [exact Hf|exact Hb]. }
       assert (Hans : forall c, In c bs -> exists b, vval n o e c v = Ok b).
-      { intros c Hc. destruct (Hall c Hc) as [(b & Hb & _) _]. exists b. exact Hb. }
+      { intros c Hc. destruct (Hall c Hc) as [(b & Hb) _]. exists b. exact Hb. }
       destruct (choose_total (vval n o e) e v bs Hans 0 (-1) (-1) false) as (j & Hj & Hr).
       (* some branch validates, so the result is not -1 *)
-      apply any_branch_true in Ha. destruct Ha as (pre & c0 & post & Hbs & _ & Hc0).
+      apply any_branch_true in Ha. destruct Ha as (pre & c0 & post & Hbs & _ & Hpass0 & Hc0).
       assert (Hin0 : In c0 bs) by (rewrite Hbs; apply in_or_app; right; left; reflexivity).
       assert (Hc0n : validate n o e c0 (Some v) = Ok true /\ hint_pass e v c0 = true).
-      { destruct (Hall c0 Hin0) as [(b & Hb & Hpass) _]. assert (b = true); [|subst b; split; [exact Hb|apply Hpass; reflexivity]].
+      { destruct (Hall c0 Hin0) as [(b & Hb) _]. assert (b = true); [|subst b; split; [exact Hb|exact Hpass0]].
         pose proof (validate_fuel_mono f (Nat.max f n) o e (Nat.le_max_l _ _) _ _ _ Hc0) as H1.
         pose proof (validate_fuel_mono n (Nat.max f n) o e (Nat.le_max_r _ _) _ _ _ Hb) as H2. congruence. }
       assert (Hj0 : 0 <= j < len bs).
@@ -1314,7 +1327,7 @@ Proof.
       assert (Hcv : validate n o e c (Some v) = Ok true).
       { destruct (search_valid _ _ _ _ _ Hj ltac:(lia)) as (c' & Hc' & _ & Hcase). rewrite Hc in Hc'. injection Hc' as <-.
         destruct Hcase as [Hok|(Hdbl & k & cf & _ & _ & Hcf & Hkf)]; [exact Hok|].
-        destruct (Hall c Hinc) as [(b & Hb & _) _]. rewrite Hb. f_equal.
+        destruct (Hall c Hinc) as [(b & Hb) _]. rewrite Hb. f_equal.
         eapply double_accepts_numbers; [exact Hdbl| |exact Hb]. eapply number_of_float_kind; [exact Hcf|exact Hkf]. }
       destruct (IH o e c v n Ho (proj2 (Hall c Hinc)) Hcv) as [fc Hfc].
       exists (Nat.max n fc). intros f' Hf. destruct (Hfc f' ltac:(lia)) as [a Ha'].
@@ -1405,7 +1418,7 @@ Proof.
   intros Hs H. cbn [wdom]. intros l' Hl. apply as_sequence_items in Hl. rewrite Hs in Hl. injection Hl as <-. exact H.
 Qed.
 Lemma wdom_union_plain n o e bs v : (forall l, v <> PTuple l) ->
-  Forall (fun c => (exists b, validate n o e c (Some v) = Ok b /\ (b = true -> hint_pass e v c = true)) /\ wdom n o e c v) bs ->
+  Forall (fun c => (exists b, validate n o e c (Some v) = Ok b) /\ wdom n o e c v) bs ->
   wdom (S n) o e (SUnion bs) v.
 Proof. intros Hn H. cbn [wdom]. destruct v; try exact H. exfalso. eapply Hn. reflexivity. Qed.
 Lemma wdom_union_hint n o e bs nm x b : disable_tuple o = false ->
